@@ -171,23 +171,24 @@ theorem sortedByM_cutKey (store : List Res) (f : Fragment) (xs : List Nat) :
     rw [map_eq_bind_pure]
   rw [hk]
 
-/-- a loop body over `(sub_fragments, store, nextOid)` that computes the flags of pass `i` (only a non-empty list has passes), calls `trim_fragment` on holder `sid`
-    with a fresh object id, writes the trimmed result back and appends the piece — run over `enumerate(xs)` from
-    `([], b.store, b.nextOid)` — is the model's `foldlM` of `cutStep` -/
-theorem cutLoop_is_forIn {ρ : Type} (f : Fragment) (last : Nat)
-    (body : Int × Nat → List Fragment × List Res × Nat → R (PyRt.Ctl (List Fragment × List Res × Nat) ρ))
+/-- a loop body over the three variables `sub_fragments`, `store`, `nextOid` — packed into the loop state `σ` by `π`, in whatever order
+    the translator carries them — that computes the flags of pass `i` (only a non-empty list has passes), calls `trim_fragment` on
+    holder `sid` with a fresh object id, writes the trimmed result back and appends the piece — run over `enumerate(xs)` from
+    `π [] b.store b.nextOid` — is the model's `foldlM` of `cutStep` -/
+theorem cutLoop_is_forIn {ρ σ : Type} (π : List Fragment → List Res → Nat → σ) (f : Fragment) (last : Nat)
+    (body : Int × Nat → σ → R (PyRt.Ctl σ ρ))
     (xs : List Nat)
     (hbody : xs ≠ [] → ∀ (i sid : Nat) (subs : List Fragment) (store : List Res) (oid : Nat),
-      body ((i : Int), sid) (subs, store, oid) =
+      body ((i : Int), sid) (π subs store oid) =
         ((getRes store sid).trimFragment f (cutFlags f last i).1 (cutFlags f last i).2 oid) >>= fun p =>
-          .ok (.next (subs ++ [p.2], PyRt.updRes store sid p.1, oid + 1)))
+          .ok (.next (π (subs ++ [p.2]) (PyRt.updRes store sid p.1) (oid + 1))))
     (b : Build) :
-    PyRt.forIn (PyRt.enumerate xs) ([], b.store, b.nextOid) body
-      = (xs.foldlM (cutStep f last) (b, [], 0)).map (fun a => PyRt.Done.fell (a.2.1, a.1.store, a.1.nextOid)) := by
+    PyRt.forIn (PyRt.enumerate xs) (π [] b.store b.nextOid) body
+      = (xs.foldlM (cutStep f last) (b, [], 0)).map (fun a => PyRt.Done.fell (π a.2.1 a.1.store a.1.nextOid)) := by
   by_cases hne : xs = []
   · subst hne; rfl
   replace hbody := hbody hne
-  refine forIn_enumFrom_foldlM (fun a => a.2.2) (fun a => (a.2.1, a.1.store, a.1.nextOid)) body (cutStep f last) ?_
+  refine forIn_enumFrom_foldlM (fun a => a.2.2) (fun a => π a.2.1 a.1.store a.1.nextOid) body (cutStep f last) ?_
     (cutStep_idx f last) xs (b, [], 0)
   intro a sid
   obtain ⟨b', subs, i⟩ := a
